@@ -186,6 +186,18 @@ CLAIMED["C16"] = dict(
     ref="DESIGN.md section 2 / C16",
     note=NOTE_COMMON + "; VTK classes replaced by a recorder grid (writer -> matching reader is the identity); the real VTK only in native replays",
 )
+CLAIMED["C20"] = dict(
+    text="MplField.scalar / contour / vector / __call__ run with a recording Axes on concrete 2-d geometries from nm to km "
+         "(default and explicit multiplier) with symbolic values, symbolic validity bits and symbolic filter / colour fields "
+         "(same or coarser mesh): the image handed to imshow/contour has A[row j][col i] = value(i,j), NaN exactly where the "
+         "cell is invalid or the filter is zero (the explorer forks on every mask bit), origin lower, extent = region / "
+         "multiplier; quiver gets the cell centres / multiplier and U,V = the components paired with the two axes through "
+         "the mapping (every pairing, partial mappings, explicit labels), colour = the remaining component or the resampled "
+         "colour field; axis labels carry dimension names and prefixed units; the field's values, validity and mesh are "
+         "unchanged afterwards; refusals draw nothing. Lightness natively with the real matplotlib (shape, extent, alpha).",
+    ref="DESIGN.md section 2 / C20",
+    note=NOTE_COMMON + "; matplotlib replaced by a recording Axes (the claim is about the arguments handed over, not the rendering); geometry concrete",
+)
 PENDING_REASON = "check not built yet in this round (planned: DESIGN.md section 2); not claimed until it runs green"
 NA = {}
 
